@@ -1021,3 +1021,69 @@ twin('C19', 'c19-twin-guard-rearranged', RCONT,
      "        if self._capacity - self._level >= event.amount:",
      "        if self._level + event.amount <= self._capacity:",
      'same inequality')
+
+# ------------------------------------------------------------------------- C18
+PYEVENTS = 'usim/py/events.py'
+PYCORE = 'usim/py/core.py'
+mutant('C18', 'c18-succeed-twice', PYEVENTS,
+       "        if self._value is not None:\n            raise RuntimeError(f'{self} has already been triggered')\n        self._value = value, None",
+       "        self._value = value, None",
+       'O', 'an event can be triggered twice')
+mutant('C18', 'c18-trigger-no-callbacks', PYEVENTS,
+       "        self.__usimpy_flag__.__trigger__()\n        self.env.schedule(self)\n\n    @property\n    def triggered",
+       "        self.__usimpy_flag__.__trigger__()\n\n    @property\n    def triggered",
+       'T Event._trigger', 'callbacks never run')
+mutant('C18', 'c18-trigger-no-wake', PYEVENTS,
+       "        self.__usimpy_flag__._value = True\n        self.__usimpy_flag__.__trigger__()\n        self.env.schedule(self)",
+       "        self.__usimpy_flag__._value = True\n        self.env.schedule(self)",
+       'T Event._trigger', 'waiting processes are never resumed')
+mutant('C18', 'c18-callbacks-twice', PYEVENTS,
+       "        callbacks, self.callbacks = self.callbacks, None",
+       "        callbacks = self.callbacks",
+       'T _invoke_callbacks', 'callbacks can be invoked again')
+mutant('C18', 'c18-failure-swallowed', PYEVENTS,
+       "        if exception is not None and not self.defused:\n            raise exception",
+       "        if exception is not None and self.defused:\n            raise exception",
+       'T _invoke_callbacks', 'unhandled failed events do not end the run')
+mutant('C18', 'c18-timeout-delay-twice', PYEVENTS,
+       "        await (time + self._delay)\n        self.succeed(self._fixed_value)",
+       "        await (time + self._delay)\n        await (time + self._delay)\n        self.succeed(self._fixed_value)",
+       'P Timeout._trigger_timeout', 'fires after twice the delay')
+mutant('C18', 'c18-timeout-negative-late', PYEVENTS,
+       "        if delay < 0:\n            raise ValueError(\"'delay' must not be negative\")\n        super().__init__(env)",
+       "        super().__init__(env)\n        if delay < 0:\n            raise ValueError(\"'delay' must not be negative\")",
+       'P Timeout:negative', 'event created before validation')
+mutant('C18', 'c18-process-generic-first', PYEVENTS,
+       "            except StopIteration as err:\n                value = err.args[0] if err.args else None\n                self.succeed(value)\n                break\n            except BaseException as err:\n                self.fail(err)\n                break",
+       "            except BaseException as err:\n                self.fail(err)\n                break",
+       'P Process._run_payload', 'a finished process counts as failed with StopIteration')
+mutant('C18', 'c18-process-value-lost', PYEVENTS,
+       "                value = err.args[0] if err.args else None\n                self.succeed(value)",
+       "                value = None\n                self.succeed(value)",
+       'P Process._run_payload:return-value', 'the return value of a process is lost')
+mutant('C18', 'c18-interrupt-dead', PYEVENTS,
+       "        if self._value is None:\n            self._interrupts.push(cause)",
+       "        self._interrupts.push(cause)",
+       'P Process.interrupt', 'interrupting a finished process queues forever')
+mutant('C18', 'c18-interrupts-lifo', PYEVENTS,
+       "        result = self._causes.pop(0)", "        result = self._causes.pop()",
+       'P InterruptQueue', 'interrupts delivered in reverse order')
+mutant('C18', 'c18-anyof-needs-all', PYEVENTS,
+       "        return count or not events", "        return count == len(events)",
+       'P Condition.any_events', 'AnyOf waits for all members')
+mutant('C18', 'c18-until-past-accepted', PYCORE,
+       "                        if until < time.now:\n                            raise ValueError('until must be in the future')\n",
+       "",
+       'U until:past', 'until in the past is accepted')
+mutant('C18', 'c18-run-returns-none', PYCORE,
+       "                if until.triggered:\n                    return until.value\n",
+       "                if until.triggered:\n                    return None\n",
+       'U run:returns', 'run(until=event) loses the value')
+mutant('C18', 'c18-await-no-defuse', PYEVENTS,
+       "            # the waiter will handle our exception\n            self.defused = True\n            raise error",
+       "            raise error",
+       'A', 'a failure handled by an awaiting activity still ends the run')
+twin('C18', 'c18-twin-guard-form', PYEVENTS,
+     "        if delay < 0:\n            raise ValueError(\"'delay' must not be negative\")\n        super().__init__(env)",
+     "        if 0 > delay:\n            raise ValueError(\"'delay' must not be negative\")\n        super().__init__(env)",
+     'flipped comparison')
